@@ -23,8 +23,15 @@ RULE = ("exhaustive cross product: 8 undefined types (Undefined, ChainableUndefi
         "operations written as template expressions (sync and async environments). A cell is "
         "distinct by (type, origin, level, operation, operand kind); all cells are non-trivial "
         "(each executes one operation on a live undefined and is compared with the table). "
+        "plus an attribute-name section: every type x origin x 19 attribute names of every "
+        "underscore shape (x, _x, __x, __x_y, __x_, ___x, x_, x__, _x_, _x__, x__y and dunder "
+        "names __x__) x 7 access ways (getattr(), hasattr(), Environment.getattr, the attr filter "
+        "via call_filter, template dot access, the attr filter in a template with a literal and "
+        "with a data-supplied name): only dunder names answer AttributeError, every other name "
+        "fails with UndefinedError / chains; distinct by (type, origin, way, leading, trailing "
+        "underscores, inner underscore). "
         "a random extension varies variable names (incl. non-ASCII identifiers), operands and "
-        "ChainableUndefined access paths (30 rounds/shard quick, up to 4000 thorough)")
+        "attribute names (random underscore shapes), ChainableUndefined access paths (30 rounds/shard quick, up to 4000 thorough)")
 TECHNIQUE = "reference-table monitor over the exhaustive type x origin x operation x operand table"
 LEVEL_TEXT = ("held on every cell of the finite table (exhaustive) and on the random extension "
               "of names/operands; outcomes observed: result values, exception types, messages, "
@@ -38,7 +45,11 @@ ASSUMPTIONS = [
     "'str % x' is handled by str alone and is skipped)",
     "logging variants: only the documented 'logs iterations and printing' is demanded; pickle of "
     "logging variants is not exercised (class is local to the factory)",
-    "dunder attribute probes are exercised only through copy/deepcopy/pickle",
+    "dunder attribute names (two leading and two trailing underscores): only getattr()/hasattr() "
+    "on the object are decided (AttributeError / False); what template dot access, "
+    "Environment.getattr and the attr filter make of a dunder name is not documented and not "
+    "checked; names consisting of underscores only or with 3+ underscores on one side and 2+ on "
+    "the other are treated as ambiguous and skipped (attr_undecided)",
 ]
 NSHARDS = {"quick": 16, "thorough": 16}
 BUDGET_S = {"quick": 25, "thorough": 420}
@@ -47,12 +58,18 @@ FLOORS = {
     "quick": {"evaluations": 45000, "distinct": 40000,
               "counters": {"py_cells": 30000, "tmpl_cells": 12000, "async_cells": 150,
                            "outcome_err": 35000, "outcome_val": 8000, "log_checks": 150,
-                           "msg_checks": 35000, "random_rounds": 120, "weak_val": 4000}},
+                           "msg_checks": 35000, "random_rounds": 120, "weak_val": 4000,
+                           "attr_cells": 8000, "attr_cells_dunder": 400,
+                           "attr_cells_two_leading_underscores": 3000,
+                           "outcome_attrerr": 200}},
     "thorough": {"evaluations": 150000, "distinct": 40000,
                  "counters": {"py_cells": 100000, "tmpl_cells": 15000, "async_cells": 150,
                               "outcome_err": 100000, "outcome_val": 25000, "log_checks": 1000,
                               "msg_checks": 100000, "random_rounds": 1500, "chain_steps": 200,
-                              "weak_val": 12000}},
+                              "weak_val": 12000, "attr_cells": 8000,
+                              "attr_cells_dunder": 400,
+                              "attr_cells_two_leading_underscores": 3000,
+                              "outcome_attrerr": 200}},
 }
 
 TYPE_SPECS = list(T.BASES) + [f"Logging({b})" for b in T.BASES]
@@ -345,6 +362,13 @@ def judge(ctx, cell, expected, outcome, info, xinfo=None, u=None):
         else:
             ctx.count("weak_val")
             kind = "val"
+    if kind == "attrerr":
+        ctx.count("outcome_attrerr")
+        if st != "exc":
+            return "no-raise", f"expected AttributeError (dunder probe), got value {short(val)}"
+        if not isinstance(val, AttributeError) or isinstance(val, exc_classes(info)):
+            return "wrong-exc", f"raised {type(val).__name__}: {val} instead of AttributeError"
+        return None
     if kind == "err":
         ctx.count("outcome_err")
         if st != "exc":
@@ -498,6 +522,76 @@ def py_binary_group(ctx, env, cls, base, recs, spec, origin, nm, okind, ovalue):
         cell = {"level": "py", "type": spec, "origin": origin, "name": nm, "op": op,
                 "operand": opd}
         py_cell(ctx, env, cls, base, recs, cell, u=u, info=info)
+
+
+# ------------------------------------------------------------------ attribute-name cells
+ATTR_PY = {
+    "py_getattr": lambda env, u, n: getattr(u, n),
+    "py_hasattr": lambda env, u, n: hasattr(u, n),
+    "env_getattr": lambda env, u, n: env.getattr(u, n),
+    "attr_filter": lambda env, u, n: env.call_filter("attr", u, [n]),
+}
+ATTR_TMPL = {
+    "tmpl_dot": "{{ @E.@N }}",
+    "tmpl_attr_filter": "{{ @E|attr('@N') }}",
+    "tmpl_attr_filter_var": "{{ @E|attr(attrname) is defined }}",
+}
+
+
+def attr_cell(ctx, env, cls, base, recs, cell, u=None, info=None):
+    """One access to attribute `cell['attr']` (any underscore shape) of an
+    undefined through `cell['op']`; the table decides by the shape of the name."""
+    spec, origin, nm, way, an = (cell["type"], cell["origin"], cell["name"], cell["op"],
+                                 cell["attr"])
+    expected = T.expect_attr(base, an, way)
+    if expected is None:
+        ctx.count("attr_undecided")
+        return
+    shape = T.attr_shape(an)
+    lead = len(an) - len(an.lstrip("_"))
+    trail = len(an) - len(an.rstrip("_"))
+    if recs is not None:
+        del recs[:]
+    if way in ATTR_PY:
+        if u is None:
+            u, info = make_undefined(env, cls, origin, nm)
+        outcome = attempt(ATTR_PY[way], env, u, an)
+        level = "py"
+        fail = judge(ctx, cell, expected, outcome, info, None, u)
+    else:
+        if origin not in TEMPLATE_ORIGINS:
+            return
+        level = "tmpl"
+        info = {"kind": origin, "names": ["99"] if origin == "item_list" else [nm], "hint": None,
+                "plain_name": nm if origin == "name" else None, "exc": "UndefinedError"}
+        src = ATTR_TMPL[way].replace("@E", origin_expr(origin, nm)).replace("@N", an)
+        cell["src"] = src
+        rctx = render_ctx()
+        rctx["attrname"] = an
+        outcome = attempt(lambda: env.from_string(src).render(**rctx))
+        fail = judge(ctx, cell, expected, outcome, info, None, None)
+        if fail:
+            fail = (fail[0], f"{src!r}: {fail[1]}")
+    ctx.ev()
+    ctx.count("attr_cells")
+    ctx.count("attr_cells_dunder" if shape == "dunder" else "attr_cells_nondunder")
+    if shape != "dunder" and lead >= 2:
+        ctx.count("attr_cells_two_leading_underscores")
+    ctx.dist(("attr", spec, origin, way, min(lead, 3), min(trail, 3), "_" in an.strip("_")))
+    if fail:
+        mode, text = fail
+        klass = "dunder" if shape == "dunder" else "non-dunder"
+        ctx.violation(f"attr:{way}:{klass}:{spec}:{mode}",
+                      f"{spec} from {origin}: attribute {an!r} via {way}: {text}", cell)
+
+
+def attr_group(ctx, env, cls, base, recs, spec, origin, nm, names):
+    u, info = make_undefined(env, cls, origin, nm)
+    for an in names:
+        for way in T.ATTR_WAYS_PY + T.ATTR_WAYS_TMPL:
+            cell = {"level": "attr", "type": spec, "origin": origin, "name": nm, "op": way,
+                    "attr": an, "operand": None}
+            attr_cell(ctx, env, cls, base, recs, cell, u=u, info=info)
 
 
 # ------------------------------------------------------------------ template level cells
@@ -654,7 +748,9 @@ def envs_for(spec, cache):
 
 def run_cell(ctx, cache, cell):
     cls, base, recs, env, aenv = envs_for(cell["type"], cache)
-    if cell["level"] == "py":
+    if cell["level"] == "attr":
+        attr_cell(ctx, env, cls, base, recs, cell)
+    elif cell["level"] == "py":
         py_cell(ctx, env, cls, base, recs, cell)
     else:
         tmpl_cell(ctx, aenv if cell.get("async") else env, base, recs, cell)
@@ -675,6 +771,10 @@ def run(ctx):
                 gi += 1
                 if ctx.mine(gi):
                     py_binary_group(ctx, env, cls, base, recs, spec, origin, nm, okind, ovalue)
+            gi += 1
+            if ctx.mine(gi):
+                attr_group(ctx, env, cls, base, recs, spec, origin, nm,
+                           [n for _, n in T.ATTR_NAMES])
         for origin in TEMPLATE_ORIGINS:
             gi += 1
             if ctx.mine(gi):
@@ -716,6 +816,16 @@ def rand_name(rng):
         if n.isidentifier() and not n.startswith("_") and n not in RESERVED and \
                 not (n.startswith("__") and n.endswith("__")):
             return n
+
+
+def rand_attr_name(rng):
+    """Attribute name of a random underscore shape: 0-3 leading and trailing
+    underscores around an ASCII stem that may contain inner (double) underscores."""
+    stem = rng.choice("abcxyz") + "".join(rng.choice("abxy09_") for _ in range(rng.randint(0, 6)))
+    stem = stem.rstrip("_")
+    lead = rng.choice([0, 1, 2, 2, 2, 3])
+    trail = rng.choice([0, 0, 1, 2, 3])
+    return "_" * lead + stem + "_" * trail
 
 
 RESERVED = {"obj", "obj2", "num", "d", "seq", "grab", "present", OTHER_NAME, "true", "false",
@@ -761,6 +871,8 @@ def random_extension(ctx, cache, rounds):
                 tmpl_cell(ctx, env, base, recs,
                           {"level": "tmpl", "type": spec, "origin": origin, "name": nm,
                            "op": t[0], "operand": None})
+        attr_group(ctx, env, cls, base, recs, spec, origin, nm,
+                   [rand_attr_name(rng) for _ in range(4)])
         if base == "ChainableUndefined":
             chain_walk(ctx, rng, env, cls, spec, origin, nm)
 
